@@ -634,6 +634,7 @@ class Emitter:
         self.nassert = 0
         self.c07 = None
         self.attempt = 0      # > 0 while walking the body of an inlined ordered-choice alternative
+        self.alt_snap = []    # ghost snapshots taken at the entry of the enclosing inlined alternatives
         self.has_oc = "'ordered_choice" in ix.text(f.i_body, f.i_end)
         self.depth = {"lhs": 0}
 
@@ -679,7 +680,9 @@ class Emitter:
             elif s.kind == "alt":
                 self.emit_alt(s, opened, closed)
                 self.attempt += 1
+                self.alt_snap.append("a_" + s.label[1:])
                 self.walk(s.core, opened, closed)
+                self.alt_snap.pop()
                 self.attempt -= 1
                 self.walk(s.ok, opened, closed)
             elif s.kind == "match":
@@ -723,6 +726,12 @@ class Emitter:
         inv += ["%s.pos >= p_%d,   // [C03]" % (r, k), "(%s.pos == p_%d ==> %s.current == c_%d),   // [C03]" % (r, k, r, k)]
         if flag and self.attempt == 0:
             inv.append(self.flag_clause())
+        if self.f.has_ret:
+            # a rule that runs inside undoable attempts: frame relative to its entry
+            inv.append("%s.att(%s, %s),   // [C08] inside an undoable attempt nothing below the entry length is touched" % (r, o, B))
+        if self.alt_snap:
+            a = self.alt_snap[-1]
+            inv.append("%s.att(&%s, %s.nlen()),   // [C08] frame of the alternative being tried" % (r, a, a))
         if self.f.parent is not None and "lhs" in closed and closed["lhs"] == 0:
             inv.append("lhs.0 == lhs0.0,   // [C02]")
         for v in closed:
@@ -763,16 +772,11 @@ class Emitter:
             pre += "let ghost %s_%d = %s;\n%s" % (v, k, v, ind)
         self.ed.insert(st[s.i_lbl].s, pre + self.PSEUDO_ATTR)
         exc = ["*%s == o_%d,   // the body runs once" % (r, k)] + ["%s == %s_%d," % (v, v, k) for v in pins]
-        ens = self.facts(s.i_kw, opened, closed, k)
-        exits = self.interp.loops.get(id(s), {})
-        P = {t for t in self.alphabet if exits.get(t) == {"P"}}
-        N = {t for t in self.alphabet if exits.get(t) == {"N"}}
-        if P:
-            ens.append("%s ==> %s.pos > p_%d,   // [C03]" % (tokset("c_%d" % k, P, self.alphabet), r, k))
-        if N:
-            ens.append("%s ==> %s.pos == p_%d,   // [C03]" % (tokset("c_%d" % k, N, self.alphabet), r, k))
+        # No `ensures`: Verus ignores the `ensures` of a loop with loop_isolation(false) (checked with a
+        # deliberately false one); the state after the loop is the state at the `break` that left it,
+        # which is exact here because the head state is pinned.  What the code after the choice needs
+        # is therefore proved where it is needed (postconditions, preconditions of later calls).
         txt = "\n%s  invariant_except_break\n%s    %s\n" % (ind, ind, ("\n%s    " % ind).join(exc))
-        txt += "%s  ensures\n%s    %s\n" % (ind, ind, ("\n%s    " % ind).join(ens))
         txt += "%s  decreases 0int\n%s" % (ind, ind)
         self.ed.insert(st[s.i_brace].s, txt)
         self.ed.insert(st[s.i_brace].e, "\n%sbroadcast use lemma_span_ok, lemma_mk_bound;\n%sproof { reveal(Parser::twf); reveal(Parser::ewf); reveal(Parser::mk); }" % (ind, ind))
@@ -783,16 +787,27 @@ class Emitter:
         sv = gs[0].var
         self.ed.insert(st[gs[0].i1].e, "\n%slet ghost s_%d = *%s;" % (ind, k, r))
         nset = 0
+        nassumed = 0
         for c in s.body:
-            for d in ([c] if c.kind == "call" else (c.then if c.kind == "if" else [])):
+            seq_ = [c] if c.kind == "call" else (c.then if c.kind == "if" else [])
+            last_alt = None
+            for d in seq_:
+                if d.kind == "alt":
+                    last_alt = d
                 if d.kind == "call" and d.method == "set_state":
                     if not re.match(r"\s*&\s*%s\s*," % re.escape(sv), d.args):
                         raise Lost("E13: set_state with an unexpected argument")
                     nset += 1
                     g = "pre_%d_%d" % (k, nset)
-                    self.ed.insert(st[d.i0].s, "let ghost %s = *%s;\n%s    proof {\n%s        assume(%s.frame_ok(&%s));   // ASSUMED (E13 frame): the abandoned alternative left the tree below the saved mark alone\n%s        lemma_restorable(%s, &%s, &s_%d);\n%s    }\n%s    " % (g, r, ind, ind, r, sv, ind, r, sv, k, ind, ind))
+                    if last_alt is not None:
+                        # the frame of the alternative that was just abandoned, from the frames of its steps
+                        fr = "lemma_frame_ok(%s, &a_%s, &%s, &s_%d);   // [C08] frame of the abandoned alternative: proved" % (r, last_alt.label[1:], sv, k)
+                    else:
+                        nassumed += 1
+                        fr = "assume(%s.frame_ok(&%s));   // ASSUMED (E13 frame): the abandoned alternative left the tree below the saved mark alone" % (r, sv)
+                    self.ed.insert(st[d.i0].s, "let ghost %s = *%s;\n%s    proof {\n%s        %s\n%s        lemma_restorable(%s, &%s, &s_%d);\n%s    }\n%s    " % (g, r, ind, ind, fr, ind, r, sv, k, ind, ind))
                     self.ed.insert(st[d.i1].e, "\n%s    proof { lemma_restored(%s, &%s, &%s, &s_%d); }" % (ind, r, g, sv, k))
-        self.report.setdefault("assumed_frames", []).append({"fn": self.key, "set_state_calls": nset})
+        self.report.setdefault("assumed_frames", []).append({"fn": self.key, "set_state_calls": nset, "frame_assumed_at": nassumed})
 
     def emit_alt(self, s, opened, closed):
         """E13 inlined alternative: `'alt_K: loop { CORE; alt_ok_K = true; break 'alt_K; }`."""
@@ -802,29 +817,25 @@ class Emitter:
         ind = " " * 16
         lp = s.loop
         pins = [v for v in self.assigned_outer(lp.i_brace, lp.i_end) if v != s.flag]
-        pre = "let ghost p_%d = %s.pos; let ghost c_%d = %s.current; let ghost a_%d = *%s;\n%s" % (k, r, k, r, k, r, ind)
+        a = "a_" + s.label[1:]
+        pre = "let ghost p_%d = %s.pos; let ghost c_%d = %s.current; let ghost %s = *%s;\n%s" % (k, r, k, r, a, r, ind)
         for v in pins:
             pre += "let ghost %s_%d = %s;\n%s" % (v, k, v, ind)
         self.ed.insert(st[s.i0].s, pre)
         self.ed.insert(st[lp.i_lbl].s, self.PSEUDO_ATTR)
-        exc = ["*%s == a_%d,   // the body runs once" % (r, k), "!%s," % s.flag] + ["%s == %s_%d," % (v, v, k) for v in pins]
-        self.attempt += 1
-        fs = self.facts(s.i0, opened, closed, k, flag=False)
-        self.attempt -= 1
-        ens = []
-        for c in fs:
-            cl, _, cm = c.partition(",   //")
-            ens.append("(%s ==> %s),   //%s" % (s.flag, cl, cm))
-        ens.append("(!%s ==> %s.cwf() && %s.twf() && %s.ewf() && %s.same_input(&a_%d) && %s.pos >= a_%d.pos),   // [C08] an abandoned alternative leaves a well-formed parser on the same input" % (s.flag, r, r, r, r, k, r, k))
-        ok = self.interp.altok.get(id(s), {})
-        P = {t for t in self.alphabet if ok.get(t) == {"P"}}
-        if P:
-            ens.append("(%s && %s ==> %s.pos > p_%d),   // [C03]" % (s.flag, tokset("c_%d" % k, P, self.alphabet), r, k))
+        exc = ["*%s == %s,   // the body runs once" % (r, a), "!%s," % s.flag] + ["%s == %s_%d," % (v, v, k) for v in pins]
+        # no `ensures` (ignored by Verus for non-isolated loops, see emit_oc): what holds when the
+        # alternative is abandoned is asserted right after the loop instead, tagged, so that a failure
+        # names the property
         txt = "\n%s  invariant_except_break\n%s    %s\n" % (ind, ind, ("\n%s    " % ind).join(exc))
-        txt += "%s  ensures\n%s    %s\n" % (ind, ind, ("\n%s    " % ind).join(ens))
         txt += "%s  decreases 0int\n%s" % (ind, ind)
         self.ed.insert(st[lp.i_brace].s, txt)
         self.ed.insert(st[lp.i_brace].e, "\n%sbroadcast use lemma_span_ok, lemma_mk_bound;\n%sproof { reveal(Parser::twf); reveal(Parser::ewf); reveal(Parser::mk); }" % (ind, ind))
+        post = "\n%sproof {\n%s    if !%s {\n" % (ind, ind, s.flag)
+        post += "%s        assert(%s.cwf() && %s.twf() && %s.ewf() && %s.same_input(&%s) && %s.pos >= %s.pos && %s.nlen() >= %s.nlen());   // [C08] an abandoned alternative leaves a well-formed parser on the same input\n" % (ind, r, r, r, r, a, r, a, r, a)
+        post += "%s        assert(%s.in_ordered_choice);   // [C08] an alternative is only abandoned while the choice flag is set\n" % (ind, r)
+        post += "%s    }\n%s}" % (ind, ind)
+        self.ed.insert(st[lp.i_end].e, post)
 
     def emit_loop(self, s, opened, closed):
         ix, st, r = self.ix, self.ix.st, self.recv
@@ -897,6 +908,8 @@ class Emitter:
             ens = [("(r is Some ==> %s)" % e, c) for (e, c) in ens]
             ens.append(("(r is None ==> %s.in_ordered_choice && %s.wf() && %s.same_input(%s) && %s.pos >= %s.pos)" % (o, fin, fin, o, fin, o), "[C08] backtracking is only requested while a choice is being tried"))
             ens.append(("(!%s.in_ordered_choice ==> !%s.in_ordered_choice)" % (o, fin), "[C08] outside an undoable attempt the flag is clear again on return"))
+            ens.append(("(r is None ==> %s.in_ordered_choice)" % fin, "[C08] ... and the flag is still set when backtracking is requested"))
+            ens.append(("%s.att(%s, %s)" % (fin, o, "lhs.0 as int" if f.parent is not None else "%s.nlen()" % o), "[C08] inside an undoable attempt nothing below the entry length is touched (frame)"))
         else:
             req.append(("!%s.in_ordered_choice" % o, "[C08] not inside an undoable attempt"))
             ens.append(("!%s.in_ordered_choice" % fin, "[C08]"))
